@@ -182,3 +182,54 @@ pub fn mb20(chars: [u8; 8]) -> u64 {
 pub fn frame_hexes(frames: &[Frame]) -> Vec<String> {
     frames.iter().map(|f| f.hex()).collect()
 }
+
+// ------------------------------------------------------------------------------------------
+// byte-level lines
+
+/// characters for which char::to_digit(16) is None (never a line feed)
+pub const DECO: &[char] = &['*', '@', ';', ':', ',', ' ', '\t', '\r', '.', '-', '_', '#', '!', '?', '/', '(', ')', '"', '+', '=', '<', '>', '~', 'g', 'h', 'x', 'z', 'G', 'X', 'Z', 'é', 'Ω', 'Ж', '٣', 'Ａ', '１', '\u{0}', '\u{7f}'];
+
+/// a junk line (bytes, no LF) that the reference never takes as a frame.
+/// Soundness rule: a line containing invalid UTF-8 or NUL-only noise never carries an accepted digit count.
+pub fn junk_line() -> BoxedStrategy<Vec<u8>> {
+    let hexd = |n: std::ops::Range<usize>| proptest::collection::vec(0u8..16, n).prop_map(|v| v.iter().map(|d| b"0123456789ABCDEF"[*d as usize]).collect::<Vec<u8>>());
+    prop_oneof![
+        1 => Just(Vec::new()),
+        1 => proptest::collection::vec(prop_oneof![Just(b' '), Just(b'\t'), Just(b'\r')], 1..6),
+        2 => "[g-zG-Z ,;:*@._-]{1,40}".prop_map(|s| s.into_bytes()),
+        // hex strings of a digit count that is never accepted
+        3 => prop_oneof![Just(13usize), Just(15), Just(27), Just(29), Just(25), Just(39), Just(41), Just(1), Just(12), 0usize..64]
+            .prop_filter("not an accepted count", |n| !matches!(n, 14 | 28 | 26 | 40))
+            .prop_flat_map(move |n| proptest::collection::vec(0u8..16, n).prop_map(|v| v.iter().map(|d| b"0123456789abcdef"[*d as usize]).collect::<Vec<u8>>())),
+        // NUL bytes
+        1 => proptest::collection::vec(prop_oneof![Just(0u8), Just(b'Z'), Just(b'9')], 1..12).prop_filter("digit count", |v| !matches!(v.iter().filter(|b| **b == b'9').count(), 14 | 28 | 26 | 40)),
+        // invalid UTF-8 : lone continuation, truncated multi-byte, 0xC0 / 0xFF, with some text around; digit count never accepted
+        3 => (hexd(0..12), prop_oneof![Just(vec![0x80u8]), Just(vec![0xBFu8]), Just(vec![0xC3u8]), Just(vec![0xE2u8, 0x82]), Just(vec![0xF0u8, 0x9F, 0x98]), Just(vec![0xC0u8, 0xAF]), Just(vec![0xFFu8]), Just(vec![0xFEu8, 0xFF]), proptest::collection::vec(0x80u8..=0xFF, 1..6)], hexd(0..12))
+            .prop_map(|(a, bad, b)| { let mut v = a; v.extend(bad); v.extend(b); v })
+            .prop_filter("digit count", |v| !matches!(v.iter().filter(|b| b.is_ascii_hexdigit()).count(), 14 | 28 | 26 | 40)),
+        // lone CR inside text
+        1 => (hexd(1..13), hexd(0..13)).prop_map(|(a, b)| { let mut v = a; v.push(b'\r'); v.extend(b); v }).prop_filter("digit count", |v| !matches!(v.iter().filter(|b| b.is_ascii_hexdigit()).count(), 14 | 28 | 26 | 40)),
+        // truncated frames (a frame cut to 1..13 or 15..27 digits)
+        2 => (any::<u128>(), prop_oneof![1usize..14, 15usize..26]).prop_map(|(x, n)| format!("{:028X}", x & ((1u128 << 112) - 1))[..n].as_bytes().to_vec()).prop_filter("count", |v| !matches!(v.len(), 14 | 26)),
+    ]
+    .boxed()
+}
+
+/// very long junk line (64 KiB .. 256 KiB) of non-hex text with a sprinkling of digits, digit count forced to be unaccepted
+pub fn long_junk_line() -> BoxedStrategy<Vec<u8>> {
+    (65_536usize..262_144, any::<u8>(), any::<bool>())
+        .prop_map(|(n, seed, hexish)| {
+            let mut v = Vec::with_capacity(n + 2);
+            let mut x = seed as u32 | 1;
+            let mut digits = 0usize;
+            for _ in 0..n {
+                x = x.wrapping_mul(1664525).wrapping_add(1013904223);
+                let b = if hexish { b"0123456789abcdefXYZ ;*"[(x >> 24) as usize % 22] } else { b"ghijklmnopqrstuvwxyz ,;"[(x >> 24) as usize % 23] };
+                if b.is_ascii_hexdigit() { digits += 1; }
+                v.push(b);
+            }
+            if matches!(digits, 14 | 28 | 26 | 40) { v.push(b'0'); }
+            v
+        })
+        .boxed()
+}
